@@ -99,6 +99,7 @@ const (
 	fDelay
 	fFlip
 	fTrunc
+	fDupLate // deliver now AND a copy Arg ms later (a late duplicate, e.g. behind HANDSHAKE_DONE)
 	fNumKinds
 )
 
@@ -110,7 +111,7 @@ type fault struct {
 }
 
 func (f fault) String() string {
-	k := []string{"drop", "dup", "delay", "flip", "trunc"}[f.Kind]
+	k := []string{"drop", "dup", "delay", "flip", "trunc", "duplate"}[f.Kind]
 	d := []string{"c>s", "s>c"}[f.Dir]
 	return fmt.Sprintf("%s#%d:%s(%d)", d, f.Idx, k, f.Arg)
 }
@@ -189,6 +190,10 @@ func (r *faultRouter) SendPacket(p simnet.Packet) error {
 		deliver(p)
 		deliver(simnet.Packet{To: p.To, From: p.From, Data: append([]byte(nil), p.Data...)})
 	case fDelay:
+		q := simnet.Packet{To: p.To, From: p.From, Data: append([]byte(nil), p.Data...)}
+		time.AfterFunc(time.Duration(f.Arg)*time.Millisecond, func() { deliver(q) })
+	case fDupLate:
+		deliver(p)
 		q := simnet.Packet{To: p.To, From: p.From, Data: append([]byte(nil), p.Data...)}
 		time.AfterFunc(time.Duration(f.Arg)*time.Millisecond, func() { deliver(q) })
 	case fFlip:
